@@ -137,11 +137,15 @@ func (db *DB) newMem(n int) (mem *memDB, err error) {
 	if db.journal == nil {
 		db.journal = journal.NewWriter(w)
 	} else {
+		// From here on records go to the new file: the switch must be
+		// completed. What the old journal could not flush or close was
+		// never acknowledged as synced; its records are replayed from the
+		// file as far as they got there.
 		if err := db.journal.Reset(w); err != nil {
-			return nil, err
+			db.logf("journal@rotate flushing @%d %q", db.journalFd.Num, err)
 		}
 		if err := db.journalWriter.Close(); err != nil {
-			return nil, err
+			db.logf("journal@rotate closing @%d %q", db.journalFd.Num, err)
 		}
 		db.frozenJournalFd = db.journalFd
 	}
